@@ -66,8 +66,22 @@ def merge(kids):
     return out
 
 
+def rattrs(rng, p=0.2, base=None):
+    """block attributes as the text syntax writes them: .class(es) and/or an explicit {name value|...} list"""
+    out = dict(base or {})
+    if rng.random() >= p:
+        return out
+    k = rng.random()
+    if k < 0.55:
+        out['class'] = rng.choice(['c', 'c d', 'k-1'])
+    if k > 0.35:
+        for name in rng.sample(['refersTo', 'status', 'title', 'period'], rng.choice([1, 1, 2])):
+            out[name] = {'refersTo': '#forms', 'status': 'editorial', 'title': rng.choice(['a b', 'T']), 'period': '#p1'}[name]
+    return out
+
+
 def rp(rng, depth=0):
-    attrs = {'class': 'c'} if rng.random() < 0.1 else {}
+    attrs = rattrs(rng, 0.12)
     return ['p', attrs, rinline(rng, depth)]
 
 
@@ -76,18 +90,18 @@ def rblock(rng, depth=0):
     if depth > 2 or k < 0.5:
         return rp(rng, depth)
     if k < 0.6:
-        items = [['item', {}, ([['num', {}, [rtext(rng, 1, True)]]] if rng.random() < 0.7 else []) + ([['heading', {}, rinline(rng, 2)]] if rng.random() < 0.3 else []) + [rblock(rng, depth + 1)]] for _ in range(rng.randint(1, 3))]
+        items = [['item', rattrs(rng, 0.1), ([['num', {}, [rtext(rng, 1, True)]]] if rng.random() < 0.7 else []) + ([['heading', {}, rinline(rng, 2)]] if rng.random() < 0.3 else []) + [rblock(rng, depth + 1)]] for _ in range(rng.randint(1, 3))]
         intro = [['listIntroduction', {}, rinline(rng, 1)]] if rng.random() < 0.4 else []
         wrap = [['listWrapUp', {}, rinline(rng, 1)]] if rng.random() < 0.3 else []
-        return ['blockList', {}, intro + items + wrap]
+        return ['blockList', rattrs(rng), intro + items + wrap]
     if k < 0.7:
-        return ['ul', {}, [['li', {}, [rp(rng, depth + 1)] + ([rp(rng, depth + 1)] if rng.random() < 0.3 else [])] for _ in range(rng.randint(1, 3))]]
+        return ['ul', rattrs(rng), [['li', {}, [rp(rng, depth + 1)] + ([rp(rng, depth + 1)] if rng.random() < 0.3 else [])] for _ in range(rng.randint(1, 3))]]
     if k < 0.8:
-        return ['table', {}, [['tr', {}, [[rng.choice(['td', 'th']), ({'colspan': '2'} if rng.random() < 0.2 else {}), [rblock(rng, depth + 1)]] for _ in range(rng.randint(1, 2))]] for _ in range(rng.randint(1, 2))]]
+        return ['table', rattrs(rng), [['tr', {}, [[rng.choice(['td', 'th']), rattrs(rng, 0.1, {'colspan': '2'} if rng.random() < 0.2 else {}), [rblock(rng, depth + 1)]] for _ in range(rng.randint(1, 2))]] for _ in range(rng.randint(1, 2))]]
     if k < 0.87:
-        return ['block', {'name': 'quote'}, [['embeddedStructure', ({'startQuote': '"'} if rng.random() < 0.3 else {}), [rblock(rng, depth + 1)]]]]
+        return ['block', {'name': 'quote'}, [['embeddedStructure', rattrs(rng, 0.15, {'startQuote': '"'} if rng.random() < 0.3 else {}), [rblock(rng, depth + 1)]]]]
     if k < 0.94:
-        return ['blockContainer', {}, [rblock(rng, depth + 1) for _ in range(rng.randint(1, 2))]]
+        return ['blockContainer', rattrs(rng), [rblock(rng, depth + 1) for _ in range(rng.randint(1, 2))]]
     return rp(rng, depth)
 
 
@@ -107,13 +121,13 @@ def rhier(rng, depth=0):
         for _ in range(rng.randint(1, 2)):
             body.append(rhier(rng, depth + 1))
             if rng.random() < 0.2:
-                body.append(['crossHeading', {}, rinline(rng, 1)])
+                body.append(['crossHeading', rattrs(rng, 0.15), rinline(rng, 1)])
         if rng.random() < 0.3:
             body.append(['wrapUp', {}, [rblock(rng, 1)]])
         kids += body
     else:
         kids.append(['content', {}, [rblock(rng, 0) for _ in range(rng.randint(1, 2))]])
-    attrs = {'class': 'k'} if rng.random() < 0.1 else {}
+    attrs = rattrs(rng, 0.2)
     return [t, attrs, kids]
 
 
@@ -133,5 +147,21 @@ def rdoc(rng):
             body.append(rhier(rng))
         else:
             body.append(['hcontainer', {'name': 'hcontainer'}, [['content', {}, [rblock(rng) for _ in range(rng.randint(1, 2))]]]])
-    pre = [['preface', {}, [rblock(rng, 1)]]] if rng.random() < 0.3 else []
-    return ['akomaNtoso', {}, [['act', {'name': 'act'}, [['meta', {}, []]] + pre + [['body', {}, body]]]]]
+    pre = [['preface', rattrs(rng, 0.15), [rblock(rng, 1)]]] if rng.random() < 0.3 else []
+    atts = [['attachments', {}, [rattachment(rng) for _ in range(rng.randint(1, 2))]]] if rng.random() < 0.4 else []
+    return ['akomaNtoso', {}, [['act', {'name': 'act'}, [['meta', {}, []]] + pre + [['body', {}, body]] + atts]]]
+
+
+def rattachment(rng, depth=0):
+    """attachment: optional heading and subheading, attributes (class and/or explicit list), a nested doc
+    named after the keyword, possibly with attachments of its own"""
+    kw = rng.choice(['schedule', 'annexure', 'appendix', 'attachment'])
+    kids = []
+    if rng.random() < 0.7:
+        kids.append(['heading', {}, rinline(rng, 1)])
+        if rng.random() < 0.25:
+            kids.append(['subheading', {}, rinline(rng, 1)])
+    main = [rhier(rng, 1) for _ in range(rng.randint(1, 2))] if rng.random() < 0.4 else [rblock(rng, 1) for _ in range(rng.randint(1, 2))]
+    inner = [['attachments', {}, [rattachment(rng, depth + 1)]]] if depth < 1 and rng.random() < 0.25 else []
+    kids.append(['doc', {'name': kw}, [['meta', {}, []], ['mainBody', {}, main]] + inner])
+    return ['attachment', rattrs(rng, 0.5), kids]
